@@ -50,3 +50,5 @@ json.dump({'name': name, 'property': meta.get('property'), 'summary': meta.get('
 EOF
 # restore the generated leaves and the evidence files to those of the unpatched tree
 ( cd /verif && python3 tools/leafgen.py >/dev/null 2>&1 )
+# the private build areas of the experiments are not kept
+rm -rf /verif/build/exp_* 2>/dev/null
